@@ -80,7 +80,7 @@ def run_one(m, mode):
         flagged = False
         rules_hit = set()
         for p in props:
-            c = subprocess.run([os.path.join(VERIF, "bin", "xpcheck"), "-prop", p, "-repo", repo, "-verif", v],
+            c = subprocess.run([os.environ.get("XPBIN", os.path.join(VERIF, "bin", "xpcheck")), "-prop", p, "-repo", repo, "-verif", v],
                                env=ENV, capture_output=True, text=True)
             outs.append(c.stdout[-1500:])
             if c.returncode == 1 and "VIOLATION property=" in c.stdout:
